@@ -3469,7 +3469,8 @@ Case_BaseLdurStur:
       }
 
       if (isign4 == ENC_OPS3(Reg, Reg, Imm) && op_data.is_fixed_point()) {
-        if (o2.as<Imm>().value_as<uint64_t>() >= 64)
+        // The number of fractional bits goes up to the register / element size, which can be 64.
+        if (o2.as<Imm>().value_as<uint64_t>() > 64)
           goto InvalidInstruction;
 
         uint32_t scale = o2.as<Imm>().value_as<uint32_t>();
@@ -4565,7 +4566,8 @@ Case_BaseLdurStur:
         if ((inst_flags & InstDB::kInstFlagNarrow) && !check_wide_operand(o0, o1, inst_flags))
           goto InvalidInstruction;
 
-        if (o2.as<Imm>().value_as<uint64_t>() > 63)
+        // Right shifts go up to the element size, which is 64 for 64-bit elements.
+        if (o2.as<Imm>().value_as<uint64_t>() > 64)
           goto InvalidImmediate;
 
         uint32_t lsb_shift = size_op.size() + 3u;
